@@ -115,6 +115,8 @@ type sim struct {
 	ppK int64
 	ppX []int // ppX[r] = the only member that receives the PREPAREs of round r (1-based)
 	ppZ []bool // the members that receive the COMMITs of the scripted rounds
+	// scenario family "stale votes" (see body)
+	staleVotes bool
 }
 
 type voteKey struct {
@@ -216,6 +218,12 @@ func body(c *kernel.Ctx) {
 		sameInput = false
 		compareOn = false
 	}
+	// Scenario family "stale votes" (lossy mode, no Byzantine member): see the rules below.
+	staleVotes := s.mode == modeLossy && verifrt.Intn("cfg", 6) == 5
+	if staleVotes {
+		sameInput = false
+		compareOn = false
+	}
 	if s.mode == modeByz && !splitLocks && !pingPong {
 		nb = 1 + verifrt.Intn("cfg", s.f)
 		for i := 0; i < nb; i++ {
@@ -279,6 +287,26 @@ func body(c *kernel.Ctx) {
 		s.stopOnDecide = true
 		s.splitLocks = true
 		verifrt.Probe("scenario:split-locks")
+	} else if staleVotes {
+		// all PREPAREs of round r arrive late - in the middle of round r+1, after the members have timed out of
+		// round r with null ROUND-CHANGEs - and the COMMITs of round r+1 reach one member only: that member
+		// decides the value of round r+1 while the others hold a prepared certificate for it AND now see a
+		// quorum of PREPAREs of the older round. What they report as prepared in their next ROUND-CHANGE
+		// decides whether round r+2 re-proposes the decided value.
+		r := int64(1 + verifrt.Intn("cfg", 2))
+		z := verifrt.Intn("cfg", s.n)
+		all, notZ := make([]bool, s.n), make([]bool, s.n)
+		for i := range all {
+			all[i], notZ[i] = true, i != z
+		}
+		s.rules = []dropRule{
+			{typ: qbft.MsgPrepare, round: r, from: all, to: all, delay: time.Duration(1100+verifrt.Intn("cfg", 900)+int(r-1)*1000) * time.Millisecond},
+			{typ: qbft.MsgCommit, round: r + 1, from: all, to: notZ},
+		}
+		s.dropPct, s.longPct, s.part.side = 0, 0, nil
+		s.maxLat = time.Duration(1+verifrt.Intn("cfg", 150)) * time.Millisecond
+		s.staleVotes = true
+		verifrt.Probe("scenario:stale-votes")
 	} else if pingPong {
 		var hon []int
 		for i := 0; i < s.n; i++ {
@@ -440,13 +468,13 @@ func body(c *kernel.Ctx) {
 		if sameInput {
 			in = alphabet[0]
 		}
-		if s.ppK > 0 {
+		if s.ppK > 0 || staleVotes {
 			in = alphabet[p%len(alphabet)] // ping-pong: members hold different values (as far as the alphabet allows), all available at once
 		}
 		s.inputs[p] = in
 		inputDelay := time.Duration(0)
 		noInput := false
-		if s.mode != modeTimely && s.ppK == 0 {
+		if s.mode != modeTimely && s.ppK == 0 && !staleVotes {
 			switch verifrt.Intn("w", 6) {
 			case 4:
 				inputDelay = time.Duration(verifrt.Intn("w", 3000)) * time.Millisecond
